@@ -7,9 +7,12 @@ package mcp
 // the session, nothing is left running.
 
 import (
+	"bufio"
 	"context"
 	"fmt"
+	"io"
 	"math"
+	"strings"
 	"testing"
 	"testing/synctest"
 	"time"
@@ -154,6 +157,109 @@ func TestVerifC05AfterFailedSends(t *testing.T) {
 				cases.Record(idx, op+" "+obs, 3, func() string { return desc })
 			}
 		}
+	}
+	env.Finish(res)
+}
+
+// c05ListenIDReuseCase: a 2026-07-28 peer opens a subscriptions/listen, ends it (notifications/cancelled),
+// and then uses the same JSON-RPC id for a tool call - ids may be reused once a request has completed.
+// While that call's handler runs, the server closes the session: Close is graceful, the running handler
+// is not cancelled, it runs to completion and its answer is written before the transport is closed.
+func c05ListenIDReuseCase(reuse bool) (obs, sig, msg string) {
+	fail := func(s, format string, a ...any) (string, string, string) {
+		return "", "c05 listen-id-reuse " + s, fmt.Sprintf(format, a...) + fmt.Sprintf(" [tool call reuses the ended listen's id: %v]", reuse)
+	}
+	ctx := context.Background()
+	gate := make(chan struct{})
+	started, cancelledEarly, finished := false, false, false
+	s := NewServer(&Implementation{Name: "srv", Version: "1"}, &ServerOptions{Logger: quietLogger})
+	AddTool(s, &Tool{Name: "slow"}, func(hctx context.Context, r *CallToolRequest, in map[string]any) (*CallToolResult, any, error) {
+		started = true
+		select {
+		case <-hctx.Done():
+			cancelledEarly = true
+		case <-gate:
+		}
+		finished = true
+		return &CallToolResult{Content: []Content{&TextContent{Text: "done"}}}, nil, nil
+	})
+	ct, st := NewInMemoryTransports()
+	ss, err := s.Connect(ctx, st, nil)
+	if err != nil {
+		return fail("setup", "%v", err)
+	}
+	peer := ct.rwc
+	var lines []string
+	go func() {
+		sc := bufio.NewScanner(peer)
+		sc.Buffer(make([]byte, 1<<20), 1<<20)
+		for sc.Scan() {
+			lines = append(lines, sc.Text())
+		}
+	}()
+	const meta = `"_meta":{"io.modelcontextprotocol/protocolVersion":"2026-07-28","io.modelcontextprotocol/clientInfo":{"name":"c","version":"1"},"io.modelcontextprotocol/clientCapabilities":{}}`
+	send := func(l string) { io.WriteString(peer, l+"\n"); synctest.Wait() }
+	send(`{"jsonrpc":"2.0","id":5,"method":"subscriptions/listen","params":{"notifications":{"toolsListChanged":true},` + meta + `}}`)
+	send(`{"jsonrpc":"2.0","method":"notifications/cancelled","params":{"requestId":5,` + meta + `}}`)
+	callID := "6"
+	if reuse {
+		callID = "5"
+	}
+	send(`{"jsonrpc":"2.0","id":` + callID + `,"method":"tools/call","params":{"name":"slow","arguments":{},` + meta + `}}`)
+	if !started {
+		peer.Close()
+		ss.Close()
+		return fail("setup", "the tool call was not dispatched: %q", lines)
+	}
+	closed := false
+	go func() { ss.Close(); closed = true }()
+	synctest.Wait()
+	early := cancelledEarly
+	close(gate)
+	time.Sleep(time.Minute)
+	synctest.Wait()
+	answered := false
+	for _, l := range lines {
+		if strings.Contains(l, `"id":`+callID+`,`) && strings.Contains(l, `"done"`) {
+			answered = true
+		}
+	}
+	peer.Close()
+	synctest.Wait()
+	switch {
+	case early:
+		return fail("running-handler-cancelled-by-close", "Close cancelled the context of a tool handler that was running (a graceful Close lets running handlers run to completion)")
+	case !finished || !closed:
+		return fail("close-never-returns", "handler finished=%v, Close returned=%v", finished, closed)
+	case !answered:
+		return fail("answer-lost", "the handler ran to completion but its answer was not written before the transport was closed: %q", lines)
+	}
+	return "handler ran to completion", "", ""
+}
+
+func TestVerifC05ListenIDReuse(t *testing.T) {
+	env := verifx.LoadEnv("C05")
+	res := env.NewResult()
+	cases := env.NewCases(res, "close-after-listen-id-reuse")
+	for _, reuse := range []bool{false, true} {
+		idx, mine := cases.Next()
+		if !mine {
+			continue
+		}
+		var obs, sig, msg string
+		func() {
+			defer func() {
+				if r := recover(); r != nil && sig == "" {
+					sig, msg = "c05 listen-id-reuse panic-or-leak", fmt.Sprint(r)
+				}
+			}()
+			synctest.Test(t, func(t *testing.T) { obs, sig, msg = c05ListenIDReuseCase(reuse) })
+		}()
+		if sig != "" {
+			cases.Violate(idx, sig, msg, 4)
+			continue
+		}
+		cases.Record(idx, obs, 4, func() string { return fmt.Sprint("reuse=", reuse) })
 	}
 	env.Finish(res)
 }
